@@ -1,6 +1,7 @@
 """C03: asynchronous requests run exactly once: no lost wake-up of a loop."""
 import os
 import tops, vlib
+from engine import EngineClient
 from props.c13 import instrument, QUEUE_FUNCS
 
 POLLER_FUNCS = "atomic.CompareAndSwapInt32,atomic.StoreInt32,unix.Write,unix.Read,"
